@@ -440,6 +440,11 @@ func (r *errorReader) Read(b []byte) (int, error) {
 	}
 	var n int
 	n, r.err = r.r.Read(b)
+	if n > 0 && r.err == io.EOF {
+		// A reader may return its last bytes together with io.EOF.
+		// They were read successfully; the next call reports the end.
+		r.err = nil
+	}
 	return n, r.err
 }
 
